@@ -32,27 +32,41 @@
     conditions on the compiled automaton that have decidable sufficient forms
     ([C01_subword_side_conditions]); [C01_bash_meaning_mixed] covers all of these together: trees
     whose leaves are literals, commands, undefined nonterminals and within-word expressions made of
-    literals.  The general statement [C01_bash_meaning_statement] differs from it only by commands
-    and undefined nonterminals inside words; that part is NOT proved. *)
+    literals.  [C01_bash_meaning] proves the general statement [C01_bash_meaning_statement]:
+    commands and undefined nonterminals inside words included, over the whole decided domain (which
+    was tightened for them: one source per piece text, one level per command at a within-word
+    point, nothing after a nonterminal inside a word), outside [ambiguous_run] and [greedy_shadow];
+    [C01_bash_meaning_wordbreaks] is the corollary for COMP_WORDBREAKS default and empty. *)
 From CG Require Import Model.Dfa Model.Tables Model.Glob Model.BashSem Model.Driver.
 From CG Require Import Base.Prelude Model.Ast Model.Check Spec.Rx Spec.Meaning Spec.KnownC01 Spec.Domain
      Proofs.RxFacts Proofs.MeaningFacts Proofs.MeaningLevels Proofs.DomainFacts.
 From CG Require Import Proofs.TreeFacts Proofs.GlobFacts Proofs.StripFacts Proofs.BashMeaningLit Proofs.LangBridge Proofs.C01Layers.
 From CG Require Import Spec.Invocations.
-From CG Require Import Proofs.SubTreeFacts Proofs.BashMeaningSub Proofs.SubChecks Proofs.BashMeaningMix.
+From CG Require Import Proofs.SubTreeFacts Proofs.BashMeaningSub Proofs.SubChecks Proofs.BashMeaningMix Proofs.SubBridge.
 
 (** The full statement: the interpreter of the script of /repo HEAD on the tables of the model
-    pipeline against the specification, for every validated tree in the decided domain -- within-word
-    expressions included.  Proved below for trees without within-word expressions
-    ([C01_bash_meaning_literal], [C01_bash_meaning_toplevel]: there required = reply = allowed);
-    the general case (layer (c): within-word items) is only stated. *)
+    pipeline against the specification, for every validated tree in the decided domain -- literals,
+    commands, undefined nonterminals, within-word expressions over the same kinds of pieces --
+    outside [ambiguous_run] and [greedy_shadow].  Hypotheses besides the decided domain:
+    - [sub_tree]: the shape check.rs leaves behind for bash (no description nodes, no zsh-only
+      compadd commands, no within-word expression inside a within-word expression);
+    - the literal orders handed to the emitter are valid ([NoDup om], [valid_literal_order],
+      [sub_orders_ok]) and the compiled automaton never offers two within-word automata with the
+      same language as alternatives with different targets ([subs_deterministic]; both have
+      decidable sufficient forms, [C01_subword_side_conditions]);
+    - completion-ignore-case is off, both sides see the same COMP_WORDBREAKS, none of whose
+      characters is one of \ ? * [ ([breaks_ok]; bash's default qualifies), the typed word is
+      printable and free of glob characters, the two environments describe the same commands.
+    It is proved: [C01_bash_meaning] at the end of this file. *)
 Definition C01_bash_meaning_statement : Prop :=
   forall pick fuel v c om os nd a (benv : BashSem.env) (en : Meaning.env) ws p,
-    Proofs.TreeFacts.alts_nonempty (v_expr v) = true ->
+    Proofs.SubBridge.sub_tree (v_expr v) = true -> Proofs.TreeFacts.alts_nonempty (v_expr v) = true ->
     compile_valid pick fuel v = Ok c ->
-    all_tables Bash c om os = Ok (nd, a) -> valid_orders c om os = true ->
+    all_tables Bash c om os = Ok (nd, a) -> NoDup om -> valid_literal_order (c_main c) om = true ->
+    sub_orders_ok c os -> subs_deterministic c ->
     C01_domain (v_expr v) = true -> C01_env_ok (v_expr v) en = true ->
     BashSem.e_ignore_case benv = false -> BashSem.e_wordbreaks benv = Meaning.e_wordbreaks en ->
+    breaks_ok (BashSem.e_wordbreaks benv) = true -> plain p = true -> printable_str p = true ->
     (forall cm cid, Tables.index_of cm (a_commands a) = Some cid ->
                     Spec.Invocations.spec_candidates (cmd_output benv cid) = candidates en cm) ->
     ambiguous_run en (start (v_expr v)) ws = false ->
@@ -347,17 +361,21 @@ Check C01_bash_meaning_subword :
     end.
 Print Assumptions C01_bash_meaning_subword.
 
-(** The two side conditions have decidable sufficient forms: the orders are checked one by one, and
-    an input pool that names at most one within-word automaton per level is deterministic. *)
+(** The two side conditions have decidable sufficient forms: the orders are checked one by one; an
+    input pool that names at most one within-word automaton per level is deterministic, and so is
+    an automaton in which the within-word transitions that leave one state under one level name one
+    within-word automaton. *)
 Theorem C01_subword_side_conditions :
   forall c os,
     (sub_orders_okb c os = true -> sub_orders_ok c os)
-    /\ (NoDup (d_inputs (c_main c)) -> subs_single c = true -> subs_deterministic c).
-Proof. intros c os. split; [apply sub_orders_okb_sound | apply subs_single_sound]. Qed.
+    /\ (NoDup (d_inputs (c_main c)) -> subs_single c = true -> subs_deterministic c)
+    /\ (NoDup (d_inputs (c_main c)) -> subs_local c = true -> subs_deterministic c).
+Proof. intros c os. split; [apply sub_orders_okb_sound | split; [apply subs_single_sound | apply subs_local_sound]]. Qed.
 Check C01_subword_side_conditions :
   forall c os,
     (sub_orders_okb c os = true -> sub_orders_ok c os)
-    /\ (NoDup (d_inputs (c_main c)) -> subs_single c = true -> subs_deterministic c).
+    /\ (NoDup (d_inputs (c_main c)) -> subs_single c = true -> subs_deterministic c)
+    /\ (NoDup (d_inputs (c_main c)) -> subs_local c = true -> subs_deterministic c).
 Print Assumptions C01_subword_side_conditions.
 
 (** Inhabited: [cmd (add || --k=(x|yz)) end;] through the whole model pipeline. *)
@@ -536,3 +554,103 @@ Example ex_C01_inhabited :
   /\ piece_boundary ex_e ex_en ["--k="] = true.
 Proof. vm_compute. repeat split; reflexivity. Qed.
 Print Assumptions ex_C01_inhabited.
+
+(** * C01_bash_meaning: the statement is a theorem. *)
+Theorem C01_bash_meaning : C01_bash_meaning_statement.
+Proof.
+  intros pick fuel v c om os nd a benv en ws p Htree Hne Hc Hall Hord Hvalid Hsords Hdet Hdom Henvok Hic Hwb Hbok Hplain Hprint Henv Hamb Hgs.
+  pose proof (bash_meaning_all pick fuel v c om os nd a benv en ws p Htree Hne Hc Hall Hord Hvalid Hsords Hdet Hdom Henvok Hic Hwb Hbok
+                Hplain Hprint Henv Hamb Hgs) as H.
+  destruct (complete (v_expr v) en ws p) as [[req al] |]; [| exact H].
+  destruct H as [reply [log [Hr [Hiff Hincl]]]]. exists reply, log. split; [exact Hr | split].
+  - intros x Hx. apply Hiff. exact Hx.
+  - intros x Hx. apply Hincl. apply Hiff. exact Hx.
+Qed.
+Check C01_bash_meaning : C01_bash_meaning_statement.
+Print Assumptions C01_bash_meaning.
+
+(** The two configurations of the quantifier: COMP_WORDBREAKS as bash sets it, and empty. *)
+Theorem C01_bash_meaning_wordbreaks :
+  forall wb, wb = bash_default_wordbreaks \/ wb = EmptyString ->
+  forall pick fuel v c om os nd a outs ens ws p,
+    let benv := BashSem.mkenv wb outs false in
+    let en := Meaning.mkenv wb ens in
+    sub_tree (v_expr v) = true -> alts_nonempty (v_expr v) = true ->
+    compile_valid pick fuel v = Ok c ->
+    all_tables Bash c om os = Ok (nd, a) -> NoDup om -> valid_literal_order (c_main c) om = true ->
+    sub_orders_ok c os -> subs_deterministic c ->
+    C01_domain (v_expr v) = true -> C01_env_ok (v_expr v) en = true ->
+    plain p = true -> printable_str p = true ->
+    (forall cm cid, Tables.index_of cm (a_commands a) = Some cid ->
+                    Spec.Invocations.spec_candidates (cmd_output benv cid) = candidates en cm) ->
+    ambiguous_run en (start (v_expr v)) ws = false ->
+    greedy_shadow (v_expr v) en ws = false ->
+    match complete (v_expr v) en ws p with
+    | None => exists log, run_from Repaired (d_start (c_main c)) a benv ws p = Ok (mkresult 1 [] log)
+    | Some (req, al) =>
+        exists reply log, run_from Repaired (d_start (c_main c)) a benv ws p = Ok (mkresult 0 reply log)
+                          /\ incl req reply /\ incl reply al
+    end.
+Proof.
+  intros wb Hwb pick fuel v c om os nd a outs ens ws p benv en Htree Hne Hc Hall Hord Hvalid Hsords Hdet Hdom Henvok Hplain Hprint Henv Hamb Hgs.
+  apply (C01_bash_meaning pick fuel v c om os nd a benv en ws p); try assumption; try reflexivity.
+  unfold benv. cbn [BashSem.e_wordbreaks]. destruct Hwb as [-> | ->]; reflexivity.
+Qed.
+Check C01_bash_meaning_wordbreaks :
+  forall wb, wb = bash_default_wordbreaks \/ wb = EmptyString ->
+  forall pick fuel v c om os nd a outs ens ws p,
+    let benv := BashSem.mkenv wb outs false in
+    let en := Meaning.mkenv wb ens in
+    sub_tree (v_expr v) = true -> alts_nonempty (v_expr v) = true ->
+    compile_valid pick fuel v = Ok c ->
+    all_tables Bash c om os = Ok (nd, a) -> NoDup om -> valid_literal_order (c_main c) om = true ->
+    sub_orders_ok c os -> subs_deterministic c ->
+    C01_domain (v_expr v) = true -> C01_env_ok (v_expr v) en = true ->
+    plain p = true -> printable_str p = true ->
+    (forall cm cid, Tables.index_of cm (a_commands a) = Some cid ->
+                    Spec.Invocations.spec_candidates (cmd_output benv cid) = candidates en cm) ->
+    ambiguous_run en (start (v_expr v)) ws = false ->
+    greedy_shadow (v_expr v) en ws = false ->
+    match complete (v_expr v) en ws p with
+    | None => exists log, run_from Repaired (d_start (c_main c)) a benv ws p = Ok (mkresult 1 [] log)
+    | Some (req, al) =>
+        exists reply log, run_from Repaired (d_start (c_main c)) a benv ws p = Ok (mkresult 0 reply log)
+                          /\ incl req reply /\ incl reply al
+    end.
+Print Assumptions C01_bash_meaning_wordbreaks.
+
+(** Inhabited: [cmd --x=<U> {{{probe}}}=(v|w) end;] -- an undefined nonterminal and a command inside
+    words -- through the whole model pipeline. *)
+Definition exa_e : expr :=
+  Sequence [Subword (Sequence [Terminal "--x=" None 0 exl_sp; NontermRef "U" 0 exl_sp] exl_sp) 0 exl_sp;
+            Subword (Sequence [Command "probe" false 0 exl_sp; Terminal "=" None 0 exl_sp;
+                               Alternative [Terminal "v" None 0 exl_sp; Terminal "w" None 0 exl_sp] exl_sp] exl_sp) 0 exl_sp;
+            Terminal "end" None 0 exl_sp] exl_sp.
+Definition exa_v := mkvalid "cmd" exa_e [] [] [].
+Definition exa_om := [("end", "")]%string.
+Definition exa_os := [(0, [("--x=", "")]); (1, [("w", ""); ("v", ""); ("=", "")])]%string.
+
+Example ex_C01_bash_meaning_inhabited :
+  match compile_valid (fun _ _ => O) 100 exa_v with
+  | Ok c =>
+      match all_tables Bash c exa_om exa_os with
+      | Ok (nd, a) =>
+          sub_tree exa_e = true /\ alts_nonempty exa_e = true /\ valid_literal_order (c_main c) exa_om = true
+          /\ nodup_pairs exa_om = true /\ sub_orders_okb c exa_os = true /\ subs_local c = true
+          /\ C01_domain exa_e = true /\ C01_env_ok exa_e ext_en = true /\ a_commands a = ["probe"]%string
+          /\ ambiguous_run ext_en (start exa_e) ["--x=abc"; "P1=w"]%string = false
+          /\ greedy_shadow exa_e ext_en ["--x=abc"; "P1=w"]%string = false
+          /\ complete exa_e ext_en ["--x=abc"] "P" = Some (["P1"], ["P1"])
+          /\ (exists log, run_from Repaired (d_start (c_main c)) a ext_benv ["--x=abc"] "P" = Ok (mkresult 0 ["P1"] log))
+          /\ complete exa_e ext_en ["--x=abc"; "P1=w"] "e" = Some (["end "], ["end "])
+          /\ (exists log, run_from Repaired (d_start (c_main c)) a ext_benv ["--x=abc"; "P1=w"] "e" = Ok (mkresult 0 ["end "] log))
+          /\ complete exa_e ext_en ["--x=q"] "aQ=" = Some (["v"; "w"], ["v"; "w"; ""])
+          /\ (exists log, run_from Repaired (d_start (c_main c)) a ext_benv ["--x=q"] "aQ=" = Ok (mkresult 0 ["w"; "v"] log))
+          /\ complete exa_e ext_en ["--x=q"; "P1="] "" = None
+          /\ (exists log, run_from Repaired (d_start (c_main c)) a ext_benv ["--x=q"; "P1="] "" = Ok (mkresult 1 [] log))
+      | _ => False
+      end
+  | _ => False
+  end.
+Proof. vm_compute. repeat split; try reflexivity; eexists; reflexivity. Qed.
+Print Assumptions ex_C01_bash_meaning_inhabited.
